@@ -12,7 +12,7 @@ import vlib
 
 PID = "C01"
 FILES = ["theories/Properties/C01.v", "theories/Properties/C10Typer.v", "theories/Examples/C01Examples.v",
-         "theories/Examples/C01FmtFloat.v"]
+         "theories/Examples/C01FmtFloat.v", "theories/Examples/C01ChildStore.v"]
 
 
 def unhex(h):
@@ -190,7 +190,10 @@ def features(t):
 def lhs_shape(l):
     if l[0] == "cnt":
         return "count-subquery" if l[1][0] == "sub" else "count"
-    dotted = b"." in unhex(l[1])
+    name = unhex(l[1])
+    dotted = b"." in name
+    if l[0] == "sym" and dotted and name.split(b".")[0] in MAP_NAMES:
+        return "symbol-map-element"
     return {"sym": "symbol", "all": "allOf", "any": "anyOf"}[l[0]] + ("-dotted" if dotted else "")
 
 
@@ -210,6 +213,7 @@ def has_subquery(t):
 
 
 SET_NAMES = set()   # names declared as set symbols in any store of the schema line
+MAP_NAMES = set()   # names (and bucket keys: a child store knows an inherited map by its key) of map symbols
 
 
 def load_schema(sline):
@@ -217,6 +221,30 @@ def load_schema(sline):
     for i, tk in enumerate(toks):
         if tk == "set":
             SET_NAMES.add(unhex(toks[i + 1]))
+    try:
+        p = P(toks[1:])
+        for _ in range(int(p.next())):
+            for _ in range(int(p.next())):
+                k = p.next()
+                p.next()
+                if k == "fld":
+                    p.next()
+                    for _ in range(int(p.next())):
+                        p.next()
+                    p.next()
+                    p.next()
+                elif k == "set":
+                    p.next()
+                    p.next()
+                    p.next()
+            for _ in range(int(p.next())):
+                MAP_NAMES.add(unhex(p.next()))
+                p.next()
+                for _ in range(int(p.next())):
+                    p.next()
+                MAP_NAMES.add(unhex(p.next()))
+    except Exception:
+        pass
 
 
 def atoms(t, inner=False):
@@ -318,6 +346,7 @@ class Runner:
             raise RuntimeError("harness replay failed: " + out[-500:])
         impl = vlib.read_lines(os.path.join(wd, "impl.txt"))
         modl = vlib.run_model(self.model, "c01", os.path.join(wd, "cases.txt"), os.path.join(wd, "model.txt"))
+        self.cases = vlib.read_lines(os.path.join(wd, "cases.txt"))   # T lines carry the answer taken in THIS run
         return impl, modl
 
 
@@ -350,6 +379,91 @@ def verdict(impl, modl):
     if fi[2] != sp or fi[3] != sp:
         return ("ids", "a filter the typing rules reject is accepted and returns %s / %s; documented semantics select %s" % (fi[2], fi[3], sp))
     return ("accepted", "a filter the typing rules reject is accepted (answers agree with the documented semantics on this dataset)")
+
+
+# ------------------------------------------------------------------ scan strategies (T lines)
+
+def ids_text(tok):
+    return "[" + ",".join(unhex(x).decode("utf-8", "replace") for x in tok.split(",") if x != "-") + "]"
+
+
+def verdict_t(case, modl):
+    """a T line: the answer one scan strategy gave (in the case line), judged by the model with strategy_check.
+    returns None (agree) or (kind, text): kind in ids|count|panic|accepted|rejected|model"""
+    fm = modl.split()
+    if fm[:2] == ["T", "agree"]:
+        return None
+    tc = case.split()
+    how = "%s%s" % ({"Q": "QueryIds", "C": "QueryWithCursorC"}[tc[3]], "" if tc[4] == "*" else " over a cursor of " + ids_text(tc[4]))
+    order = {"F": "id order", "R": "reverse id order", "A": "sorted by other fields"}[tc[2]]
+    why = fm[2] if len(fm) > 2 else "?"
+    match = fm[3] if len(fm) > 3 else "-"
+    plen = fm[4] if len(fm) > 4 else "?"
+    if why == "model-panic":
+        return ("model", "the model typer reports an unchecked assertion (Panic)")
+    if why == "panic":
+        return ("panic", "%s panics; the matching entities are %s" % (how, ids_text(match)))
+    if why == "rejected":
+        return ("rejected", "the query is well-typed for the model but rejected (%s)" % how)
+    if why == "accepted":
+        return ("accepted", "a filter the typing rules reject is accepted (the answer agrees with the documented semantics on this dataset)")
+    got = "%s (%s) returns %s with count %s" % (how, order, ids_text(tc[7]), tc[8])
+    want = "the entities satisfying the filter are %s" % ids_text(match)
+    if why == "count":
+        return ("count", "%s; %s: the count must be %d whatever the strategy and the paging" % (got, want, len([x for x in match.split(",") if x != "-"])))
+    if why == "accepted-ids":
+        return ("ids", "a filter the typing rules reject is accepted and %s; %s" % (got, want))
+    nmatch = len([x for x in match.split(",") if x != "-"])
+    cnt = "" if tc[8] == str(nmatch) else "; the count must be %d" % nmatch
+    return ("ids", "%s; %s and skip / limit leave %s of them%s%s" % (got, want, plen, " (exactly the page of that order)" if tc[2] != "A" else "", cnt))
+
+
+STORE_KINDS = {}    # store index -> root | child-plain | child-extended (from the H trailer of the S line)
+ROOT_OF = {}        # child store index -> parent store index
+
+
+def load_hier(sline):
+    STORE_KINDS.clear()
+    ROOT_OF.clear()
+    toks = sline.split()
+    if "H" in toks:
+        i = toks.index("H")
+        n = int(toks[i + 1])
+        i += 2
+        for _ in range(n):
+            child, ext, npath = toks[i], toks[i + 2], int(toks[i + 3])
+            STORE_KINDS[child] = "child-extended" if ext == "1" else "child-plain"
+            ROOT_OF[child] = toks[i + 1]
+            i += 4 + npath
+
+
+def class_key_t(kind, case):
+    tc = case.split()
+    return "C01:strategy-%s:%s:%s:%s" % (kind, STORE_KINDS.get(tc[1], "root"), "sorted" if tc[2] == "A" else "id-order",
+                                        "provided-cursor" if tc[3] == "C" else "entities-bucket")
+
+
+def t_line(tc, tt, body_text_of):
+    """the T line of a (shrunk) query: same store, strategy, universe and sort clause; text rebuilt from the body"""
+    body = tt[1] if tt[0] == "q" else tt
+    skip, limit = (tt[2], tt[3]) if tt[0] == "q" else ("-", "-")
+    text = unhex(body_text_of(("q", body, "-", "-"))).decode("utf-8")
+    if tc[5] != "-":
+        text += " sort by " + unhex(tc[5]).decode("utf-8")
+    if skip != "-":
+        text += " skip " + skip
+    if limit != "-":
+        text += " limit " + ("none" if limit == "-1" else limit)
+    return " ".join(["T", tc[1], tc[2], tc[3], tc[4], tc[5], "ok", "-", "-", text.encode("utf-8").hex() or "-", term(("q", body, skip, limit))])
+
+
+def diff_ids_t(case, modl):
+    tc, fm = case.split(), modl.split()
+    if len(fm) < 4 or tc[6] != "ok":
+        return []
+    a = set(x for x in tc[7].split(",") if x != "-")
+    b = set(x for x in fm[3].split(",") if x != "-")
+    return sorted(a ^ b)
 
 
 # ------------------------------------------------------------------ dataset lines
@@ -394,7 +508,7 @@ def q_line(store, t, text_of):
     return "Q %s %s %s" % (store, text_of(t), term(t))
 
 
-RANK = {"panic": 3, "ids": 2, "accepted": 1, "rejected": 1, "model": 1}
+RANK = {"panic": 3, "ids": 2, "count": 2, "accepted": 1, "rejected": 1, "model": 1}
 
 
 def replace_subquery(t, f):
@@ -439,14 +553,21 @@ def diff_ids(impl, modl):
     return sorted(a ^ b)
 
 
-def shrink(rn, sline, dline, store, t, kind, text_of):
-    """greedy shrinking of (dataset, filter) keeping (or strengthening) the kind of verdict"""
+def shrink(rn, sline, dline, store, t, kind, text_of, tcase=None):
+    """greedy shrinking of (dataset, filter) keeping (or strengthening) the kind of verdict.
+    tcase: the tokens of a T line when the failing observation is the answer of a scan strategy"""
+    def mk_line(tt):
+        return q_line(store, tt, text_of) if tcase is None else t_line(tcase, tt, text_of)
+
+    def judge(impl, modl):
+        return verdict(impl[-1], modl[-1]) if tcase is None else verdict_t(rn.cases[-1], modl[-1])
+
     def fails(dl, tt):
         try:
-            impl, modl = rn.run([sline, dl, q_line(store, tt, text_of)])
+            impl, modl = rn.run([sline, dl, mk_line(tt)])
         except Exception:
             return False
-        v = verdict(impl[-1], modl[-1])
+        v = judge(impl, modl)
         return v is not None and RANK[v[0]] >= RANK[kind]
 
     budget = [70]
@@ -463,6 +584,14 @@ def shrink(rn, sline, dline, store, t, kind, text_of):
         changed = False
         body = t[1] if t[0] == "q" else t
         cands = [("q", s, "-", "-") for s in subterms(body)] + [("q", s, "-", "-") for s in replace_subquery(body, None)]
+        if tcase is not None:
+            # a strategy answer: keep the paging first (it is part of many failures), then try without; the trivial filter last
+            pg = (t[2], t[3]) if t[0] == "q" else ("-", "-")
+            cands = [("q", c[1], pg[0], pg[1]) for c in cands] + (cands if pg != ("-", "-") else [])
+            if pg != ("-", "-"):
+                cands.append(("q", body, "-", "-"))
+            if body != ("bc", "1"):
+                cands = [("q", ("bc", "1"), pg[0], pg[1])] + cands
         for cand in cands:
             if try_(dline, cand):
                 t = cand
@@ -471,9 +600,9 @@ def shrink(rn, sline, dline, store, t, kind, text_of):
     # dataset: first try to keep only an entity of the queried store on which the two sides disagree
     stores = parse_dataset(dline.split()[1:])
     try:
-        si0 = int(store)
-        impl0, modl0 = rn.run([sline, dline, q_line(store, t, text_of)])
-        dids = diff_ids(impl0[-1], modl0[-1])
+        si0 = int(ROOT_OF.get(store, store))   # a child store scans the entity buckets of its parent
+        impl0, modl0 = rn.run([sline, dline, mk_line(t)])
+        dids = diff_ids(impl0[-1], modl0[-1]) if tcase is None else diff_ids_t(rn.cases[-1], modl0[-1])
         for keep in ([dids[:1], dids] if len(dids) > 1 else [dids]):
             if not keep or len(stores[si0]) <= len(keep):
                 continue
@@ -550,7 +679,8 @@ def main(argv):
     c.assumptions = [
         "set buckets hold string elements in bolt key order without duplicates (wf_db; written through SetStringList)",
         "stored field bytes are the ones the TypedBucket setters write (decoding is C13)",
-        "outer queries carry no sort clause (sorting/paging is C02)",
+        "which of the matching entities a SORTED page holds, and their order, is C02: a sorted answer is judged as a set (members of the matching set, no duplicate, as many as skip / limit leave, count = size of the matching set)",
+        "no symbol links INTO a child store and no child store has a set symbol or a child store of its own (documented in design/C01.md 5b)",
     ]
     proof_ok = c.proof_step(FILES)
     model = vlib.build_model("C01")
@@ -565,7 +695,15 @@ def main(argv):
         rp = json.load(open(c.replay))
         lines = rp["case"] if isinstance(rp["case"], list) else [rp["case"]]
         impl, modl = rn.run(lines)
-        for case, i, m in zip(lines, impl, modl):
+        for case, i, m in zip(rn.cases, impl, modl):
+            if case.startswith("S "):
+                load_schema(case)
+                load_hier(case)
+            if case.startswith("T "):
+                v = verdict_t(case, m)
+                vlib.log("REPLAY strategy query=%s\n  case =%s\n  model=%s\n  verdict=%s" % (unhex(case.split()[9]).decode("utf-8", "replace"), " ".join(case.split()[:9]), m, v))
+                if v is not None:
+                    c.violation(class_key_t(v[0], case), v[1], dict(case=lines, observed=case, model=m), no_input=(v[0] in ("accepted", "rejected", "model")))
             if case.startswith("Q"):
                 vlib.log("REPLAY filter=%s\n  impl =%s\n  model=%s\n  verdict=%s" % (unhex(case.split()[2]).decode("utf-8", "replace"), i, m, verdict(i, m)))
                 v = verdict(i, m)
@@ -600,10 +738,41 @@ def main(argv):
     samples = []
     nfmt = 0
     fmt_diffs = []
+    nt = 0
+    variant = "base"
+    import collections
+    strat_seen = collections.Counter()
+    tsamples = []
+    base_keys = set()
     for case, i, m in zip(cases, impl, modl):
         if case.startswith("S "):
             sline = case
             load_schema(case)
+            load_hier(case)
+            variant = case.split()[-1] if " V " in case else "base"
+            continue
+        if case.startswith("T "):
+            # the answer of one scan strategy, judged by the model (strategy_check)
+            nt += 1
+            tc = case.split()
+            strat_seen["%s:%s:%s" % (STORE_KINDS.get(tc[1], "root"), "sorted" if tc[2] == "A" else "id-order" if tc[2] == "F" else "id-order-reverse",
+                                     "provided-cursor" if tc[3] == "C" else "entities-bucket")] += 1
+            if tc[6] == "ok" and tc[7] != "-" and len(dline) > 20:
+                distinct.add((hash(dline), tc[1], tc[9]))
+            if len(tsamples) < 4 and nt % 4999 == 1:
+                tsamples.append(dict(store=tc[1], strategy=" ".join(tc[2:5]), query=unhex(tc[9]).decode("utf-8", "replace"),
+                                     answer=ids_text(tc[7]), count=tc[8], model=m))
+            v = verdict_t(case, m)
+            if v is None:
+                continue
+            disagreements += 1
+            pre_key = class_key_t(v[0], case)
+            found[pre_key] = found.get(pre_key, 0) + 1
+            lst = pending.setdefault(pre_key, [])
+            if len(lst) < 2 or len(case) + len(dline) < max(x[6] for x in lst):
+                lst.append((sline, dline, case, i, m, v, len(case) + len(dline)))
+                lst.sort(key=lambda x: x[6])
+                del lst[2:]
             continue
         if case.startswith("D "):
             dline = case
@@ -631,6 +800,13 @@ def main(argv):
         disagreements += 1
         t = p_term(P(case.split()[3:]))
         pre_key = class_key(v[0], t)
+        skind = STORE_KINDS.get(case.split()[1], "root")
+        if variant == "base" and skind == "root":
+            base_keys.add(pre_key)
+        else:
+            # seen only where symbols are stored under other keys / through a child store: say so in the key
+            # (decided below: the plain key is kept when the base schema shows the same class)
+            pre_key += "@" + ("" if skind == "root" else skind + "/") + variant
         found[pre_key] = found.get(pre_key, 0) + 1
         lst = pending.setdefault(pre_key, [])
         if len(lst) < 2:
@@ -638,10 +814,60 @@ def main(argv):
 
     # shrink and report: smallest instances first, at most two per class, at most 16 classes in detail
     reported = {}
+    # a class seen under the base schema is reported there; the same class under a variant / child store is a duplicate
+    for k in [k for k in pending if "@" in k and k.split("@")[0] in base_keys]:
+        del pending[k]
     for pre_key in sorted(pending, key=lambda k: min(x[6] for x in pending[k]))[:28]:
+        suffix = ("@" + pre_key.split("@", 1)[1]) if "@" in pre_key else ""
         for (sl, dl0, case, i, m, v, _) in sorted(pending[pre_key], key=lambda x: x[6]):
             toks = case.split()
             store = toks[1]
+            load_schema(sl)
+            load_hier(sl)
+            if toks[0] == "T":
+                # the answer of a scan strategy
+                t = p_term(P(toks[10:]))
+
+                def body_text_of(tt):
+                    return render(harness, c, tt)
+                try:
+                    dl, ts = shrink(rn, sl, dl0, store, t, v[0], body_text_of, tcase=toks)
+                    lines = [sl, dl, t_line(toks, ts, body_text_of)]
+                    impl2, modl2 = rn.run(lines)
+                    obs = rn.cases[-1]
+                    v2 = verdict_t(obs, modl2[-1]) or v
+                    key = class_key_t(v2[0], obs)
+                    m2 = modl2[-1]
+                    what = "%s  [query: %s]" % (v2[1], unhex(obs.split()[9]).decode("utf-8", "replace"))
+                    # is the strategy the problem, or is the filter itself answered wrongly by the plain id scan too?
+                    body = ts[1] if ts[0] == "q" else ts
+                    qlines = [sl, dl, q_line(store, ("q", body, "-", "-"), body_text_of)]
+                    implq, modlq = rn.run(qlines)
+                    vq = verdict(implq[-1], modlq[-1])
+                    if vq is not None and RANK[vq[0]] >= 2:
+                        vname = sl.split()[-1] if " V " in sl else "base"
+                        skind = STORE_KINDS.get(store, "root")
+                        sfx = "" if (vname == "base" and skind == "root") else "@" + ("" if skind == "root" else skind + "/") + vname
+                        key = class_key(vq[0], ("q", body, "-", "-")) + sfx
+                        if key.split("@")[0] in base_keys:
+                            continue
+                        lines, obs, m2, v2 = qlines, implq[-1], modlq[-1], vq
+                        what = "%s  [filter: %s]%s" % (vq[1], unhex(qlines[2].split()[2]).decode("utf-8", "replace"),
+                                                      "  [schema variant %s, %s store %s]" % (vname, skind, store) if sfx else "")
+                        if reported.get(key, 0) >= 2:
+                            continue
+                        reported[key] = reported.get(key, 0) + 1
+                        c.violation(key, what, dict(case=lines, filter=unhex(qlines[2].split()[2]).decode("utf-8", "replace"), impl=obs, model=m2))
+                        continue
+                except Exception as e:  # shrinking is best effort
+                    lines, key, obs, m2, v2 = [sl, dl0, case], pre_key, case, m, v
+                    what = "%s  [query: %s] (not shrunk: %s)" % (v[1], unhex(toks[9]).decode("utf-8", "replace"), e)
+                if reported.get(key, 0) >= 2:
+                    continue
+                reported[key] = reported.get(key, 0) + 1
+                c.violation(key, what, dict(case=lines, query=unhex(obs.split()[9]).decode("utf-8", "replace"), observed=" ".join(obs.split()[:9]), model=m2),
+                            no_input=(v2[0] in ("accepted", "rejected", "model")))
+                continue
             t = p_term(P(toks[3:]))
 
             def text_of(tt, _orig=(term(t), toks[2])):
@@ -654,8 +880,10 @@ def main(argv):
                 lines = [sl, dl, q_line(store, ts, text_of)]
                 impl2, modl2 = rn.run(lines)
                 v2 = verdict(impl2[-1], modl2[-1]) or v
-                key = class_key(v2[0], ts)
+                key = class_key(v2[0], ts) + suffix
                 what = "%s  [filter: %s]" % (v2[1], unhex(lines[2].split()[2]).decode("utf-8", "replace"))
+                if suffix:
+                    what += "  [schema variant %s, %s store %s]" % (suffix.split("/")[-1].lstrip("@"), STORE_KINDS.get(store, "root"), store)
                 i2, m2 = impl2[-1], modl2[-1]
             except Exception as e:  # shrinking is best effort
                 lines, key, i2, m2, v2 = [sl, dl0, case], pre_key, i, m, v
@@ -670,7 +898,11 @@ def main(argv):
         c.violation("C01:model-float-format", "the modelled float -> string coercion (Ast/FmtFloat.v) differs from strconv.FormatFloat(v,'f',-1,64): "
                     "bits %(bits)s strconv=%(strconv)s model=%(model)s" % dff, dict(correspondence="fmt_float_go vs strconv.FormatFloat", **dff), no_input=True)
     c.cov["float_format_lines"] = nfmt
-    c.cov["evaluations"] = nq
+    c.cov["evaluations"] = nq + nt
+    c.cov["filter_evaluations"] = nq
+    c.cov["strategy_answers"] = nt
+    c.cov["strategy_answers_by_kind"] = dict(strat_seen)
+    c.cov["strategy_samples"] = tsamples
     c.cov["distinct_nontrivial"] = len(distinct)
     c.cov["disagreements_checked"] = disagreements
     c.cov["failure_classes"] = found
@@ -681,7 +913,13 @@ def main(argv):
                      "characters, strings spelling numbers; in / not in arrays of them; dataset holding the same strings and numbers) + "
                      "seeded random null-heavy datasets (0-12 entities) x filters from a typed grammar-directed generator (nesting <= 4). "
                      "Observables: id lists of QueryIds and IterateIds. Non-trivial: the filter is well-typed and selects at least one entity; "
-                     "distinct by (dataset, filter text)")
+                     "distinct by (dataset, filter text).  Schema variants (symbols stored under keys / prefixes other than their names, keys swapped between symbols; "
+                     "a plain and an Extended() child store of people and a plain child store of places with own symbols, own maps and the symbols granted by the parent, "
+                     "mixed membership; both): the symbol-resolution part of the sweep through every store of every variant, one variant per random dataset.  "
+                     "Scan strategies (T lines): the answer (ids, count) of QueryIds without sort / sort by id asc / desc / every sortable symbol asc / desc / several fields, "
+                     "with and without skip / limit, and of QueryWithCursorC over the entities bucket or a cursor over some of its ids - bounded-exhaustive over "
+                     "(store incl. child stores) x (null tests over inherited and own symbols) x sort clause x paging, plus two random strategies per random filter; "
+                     "judged by strategy_check: count = number of matching entities, ids matching / distinct / as many as skip and limit leave, the exact page for id order")
     c.cov["samples"] = samples
     try:
         c.cov["input_distribution"] = json.load(open(os.path.join(c.work, "stats.json")))
